@@ -17,7 +17,8 @@ ID = "C14"
 LEVEL = "exploration"
 RULE = ("random hierarchies of 2-5 classes (root decorated; children dataclass or hand-written __init__, decorated or not, "
         "arbitrary parent) and histories of 6-16 operations {new (positional|keyword|defaults), symbolic construction, "
-        "rule inference into an unrelated decorated family, clear, query let(T)}; every query result is compared with the "
+        "rule inference into an unrelated decorated family, clear, query let(T), start a result iterator inside or outside a "
+        "block and resume it right before later constructions}; every query result is compared with the "
         "construction log. Non-trivial: a query is asked for a class that has a subclass instance or an inferred "
         "instance in the log and at least one logged instance that must NOT be returned (other branch / cleared). "
         "distinct by structural hash.")
@@ -38,7 +39,7 @@ def plan(tier, seed):
 def floors(tier):
     return {"distinct_nontrivial": 300, "op:new": 3000, "op:sym": 1000, "op:rule": 500, "op:clear": 300, "op:query": 3000,
             "cls:undecorated_subclass": 500, "cls:hand_written": 500, "cls:query_after_clear": 200,
-            "cls:inferred_instances_queried": 60, "queries_with_subclass_instances": 300}
+            "cls:inferred_instances_queried": 60, "cls:live_iterator_started_in": 100, "cls:live_iterator_started_out": 100, "queries_with_subclass_instances": 300}
 
 
 def gen_case(rng):
@@ -62,6 +63,8 @@ def gen_case(rng):
             ops.append(["rule", rng.randrange(ncls), rng.randrange(2), rng.randint(0, 4)])
         elif k < 0.67:
             ops.append(["clear"])
+        elif k < 0.75:
+            ops.append(["iter", rng.choice(["out", "in"])])
         else:
             ops.append(["query", rng.choice(["main", "main", "out"]), rng.randrange(ncls)])
     ops.append(["query", "main", 0])
@@ -117,6 +120,7 @@ def check_case(case, ctx):
             ctx.cls("cls:undecorated_subclass")
         if style == "hand":
             ctx.cls("cls:hand_written")
+    live_iters = []   # partially consumed result iterators (over an explicit list), advanced right before constructions
     log = []          # live concrete instances since the last clear
     cleared_once = False
     history = []
@@ -127,6 +131,8 @@ def check_case(case, ctx):
         if op[0] == "new":
             cls = main[op[1]]
             n = op[3]
+            for it in live_iters:
+                next(it, None)      # a result iterator resumed outside any block must not change what construction does
             before = sum(counters.values())
             o = cls(n) if op[2] == "pos" else cls(n=n) if op[2] == "kw" else cls()
             if type(o) is not cls:
@@ -142,6 +148,10 @@ def check_case(case, ctx):
             before = Counter(counters)
             reg_before = {k: len(list(v.flat_cache)) for k, v in Variable._cache_.items()}
             with symbolic_mode():
+                for it in live_iters:
+                    next(it, None)  # ... nor when it is resumed inside a block
+                before = Counter(counters)
+                reg_before = {k: len(list(v.flat_cache)) for k, v in Variable._cache_.items()}
                 s = cls(n=3) if op[2] == "kw" else cls()
             if isinstance(s, cls) or not isinstance(s, SymbolicExpression):
                 fail = {"what": "SYMBOLIC_CONSTRUCTION_RETURNED_AN_INSTANCE", "type": type(s).__name__}
@@ -166,6 +176,24 @@ def check_case(case, ctx):
                 break
             log.extend(res)
             history.append(["rule", src.__name__, tgt.__name__, len(res)])
+        elif op[0] == "iter":
+            pool = [o for o in log if isinstance(o, main[0])][:4]
+            if len(pool) >= 2:
+                if op[1] == "in":
+                    with symbolic_mode():
+                        it = an(entity(let(main[0], list(pool)))).evaluate()
+                        first = next(it, None)
+                else:
+                    with symbolic_mode():
+                        q = an(entity(let(main[0], list(pool))))
+                    it = q.evaluate()
+                    first = next(it, None)
+                if first is not pool[0]:
+                    fail = {"what": "ITERATOR_RESULT", "observed": repr(first)}
+                    break
+                live_iters.append(it)
+                ctx.cls("cls:live_iterator_started_" + op[1])
+            history.append(["iter", op[1], len(pool)])
         elif op[0] == "clear":
             for c in Variable._cache_.values():
                 c.clear()
